@@ -535,6 +535,13 @@ class EscapeAnalysis:
             cur = mod.parent_of.get(cur)
         return False
 
+    @staticmethod
+    def _enclosing(mod, f, node):
+        cur = mod.parent_of.get(node)
+        while cur is not None and cur is not f.node:
+            yield cur
+            cur = mod.parent_of.get(cur)
+
     def _expr(self, f: FuncInfo, e, handlers, out, in_gen):
         mod = f.module
         for n in ast.walk(e):
@@ -552,6 +559,23 @@ class EscapeAnalysis:
                     self._emit(f, "StopIteration", n, f"{short(n)} without a default", handlers, out, in_gen)
                     continue
                 targets = self.cg.resolve_call(f, n)
+                # f(*<at most k items>) where f needs exactly r positional arguments: TypeError when the iterable runs short
+                stars = [a for a in n.args if isinstance(a, ast.Starred)]
+                if len(stars) == 1 and len(n.args) == 1 and not n.keywords:
+                    sv = stars[0].value
+                    short_iter = (isinstance(sv, ast.Call) and call_name(sv) == "islice") or (isinstance(sv, ast.Subscript) and isinstance(sv.slice, ast.Slice))
+                    if short_iter:
+                        for callee, kind in targets:
+                            a_ = callee.node.args
+                            req = [x.arg for x in a_.posonlyargs + a_.args][: len(a_.posonlyargs + a_.args) - len(a_.defaults)]
+                            req = [x for x in req if x not in ("self", "cls")]
+                            if req and not a_.vararg:
+                                # a dominating length test on the sliced value discharges it
+                                guarded = False
+                                if isinstance(sv, ast.Subscript) and isinstance(sv.value, ast.Name):
+                                    guarded = any(isinstance(t, ast.If) and f"len({sv.value.id})" in norm(t.test) for t in self._enclosing(mod, f, n))
+                                if not guarded:
+                                    self._emit(f, "TypeError", n, f"{short(n)}: `{norm(sv)}` can yield fewer than the {len(req)} arguments {callee.qualname} requires (a truncated sequence)", handlers, out, in_gen)
                 for callee, kind in targets:
                     if kind == "thread":
                         continue
